@@ -60,8 +60,9 @@ GNEW = ["gnew", "gnew", "gnew cap 0", "gnew cap 1", "gnew cap 42", "gnew def"]  
 
 def scc_case(name, keys, edges, rng, ncontainers=3):
     n = len(keys)
-    steps = ["new %d %d" % (k, 0) for k in keys]
-    steps += ["con %d %d %d" % (u, v, 10 + i) for i, (u, v) in enumerate(edges)]
+    # node values differ (Node's Ord compares values) and edge values repeat: neither may influence the partition
+    steps = ["new %d %d" % (k, rng.randint(-4, 4)) for k in keys]
+    steps += ["con %d %d %d" % (u, v, (10 + i) if i % 3 else 10) for i, (u, v) in enumerate(edges)]
     for gi in range(ncontainers):
         steps.append(rng.choice(GNEW))
         order = list(range(n))
@@ -136,7 +137,7 @@ def gen_scc(rng, tier):
     for i in range(3000 if tier == "thorough" else 600):
         n = rng.randint(2, 7)
         keys = rng.sample(range(1, 500), n)
-        steps = ["new %d 0" % k for k in keys]
+        steps = ["new %d %d" % (k, rng.randint(-4, 4)) for k in keys]
         for j in range(rng.randint(2, 3 * n)):
             u, v = rng.randrange(n), rng.randrange(n)
             steps.append("con %d %d %d" % (u, v, 10 + j))
